@@ -1320,3 +1320,22 @@ Lemma failing_shape_witnesses :
   /\ in_failing_shape true "s:a" "s:b" = true
   /\ in_failing_shape false "s://h/a/b" "s://h/a/./x" = true.
 Proof. vm_compute. repeat split. Qed.
+
+(* the clauses of walk_ok that no parsed text needs, on objects: each is dropped in turn (the other
+   clauses hold) and the path of the result is not the source's *)
+Definition obj (host : option text) (abs : bool) (p : list text) : uri :=
+  mkUri (Some [115]) None host None None None None p None None abs false.
+Definition back_path (s b : uri) : list text :=
+  pathSegs (snd (add_base false (snd (remove_base false s b)) b)).
+
+Lemma walk_ok_object_clauses :
+  (* NUL in a common segment: uriCompareRange equates "a\0b" and "a\0c" *)
+  (let s := obj (Some [104]) false [[97; 0; 98]; [120]] in
+   let b := obj (Some [104]) false [[97; 0; 99]; [121]] in
+   walk_ok_dotted s b = false /\ walk_ok_dotted (obj (Some [104]) false [[97; 98]; [120]]) (obj (Some [104]) false [[97; 98]; [121]]) = true
+   /\ back_path s b = [[97; 0; 99]; [120]])
+  (* the host-less source whose path is the single empty segment: resolution drops the segment *)
+  /\ (let s := obj None true [[]] in
+      let b := obj None true [[97]] in
+      walk_ok_dotted s b = true /\ walk_ok s b = false /\ back_path s b = []).
+Proof. vm_compute. repeat split. Qed.
